@@ -407,6 +407,14 @@ func runV1Model(r *core.Run) {
 				}
 			}
 		}
+		// the same export with the source directory spelled non-canonically
+		{
+			k := 1 + rd.Intn(nSpellings-1)
+			r.Begin(fmt.Sprintf("v1:m:all-spelled:%d:%d", wi, k), true, "stream:v1-export-all", fmt.Sprintf("spelling:%d", k))
+			l := strings.Replace(exportLine(v1Src, fs, "mode all"), "C18.v1.export ", fmt.Sprintf("C18.v1.exportd %d ", k), 1)
+			out2 := r.Do(l)
+			r.Check(out2 == strings.Replace(out, "\n", "", -1) || !ok, "v1-export-depends-on-dir-spelling", fmt.Sprintf("export of all keys differs when the key directory is spelled like %q", spell("<tmp>", k)))
+		}
 		// public-only with a single key folder exports nothing
 		if rd.Chance(30) {
 			r.Begin(fmt.Sprintf("v1:m:public:%d", wi), false, "stream:v1-export-all", "mode:public")
